@@ -91,6 +91,9 @@ def gen_block_steps(rng, sink, hostile=False):
         steps.append((enc, True))
         for _ in range(rng.choice([0, 0, 1, 2])):
             steps.append((rng.choice(["PREPEND", "APPEND"]), _text(rng, rng.randrange(1, 10))))
+        if sink == "HEADER" and rng.random() < 0.25:
+            # cookie-like decorations: a header value may itself hold ": " and "; "
+            steps.append((rng.choice(["PREPEND", "APPEND"]), rng.choice([b"lang=en; sid: ", b"a: b", b": ", b" path=/; note: x: y"])))
     return steps
 
 
